@@ -21,6 +21,15 @@ def main() -> int:
     ap.add_argument("--out", required=True)
     a = ap.parse_args()
     rec = {"status": "error"}
+    try:  # the same address-space limit the workers run under: a runaway allocation becomes a MemoryError inside the case
+        import resource
+
+        _soft, _hard = resource.getrlimit(resource.RLIMIT_AS)
+        # (a replay about running out of memory may ask for a smaller limit so that it gets there in seconds instead of a minute)
+        _mb = int(json.load(open(a.file)).get("address_space_mb", 4096))
+        resource.setrlimit(resource.RLIMIT_AS, (_mb * 2**20, _hard))
+    except (ImportError, ValueError, OSError):
+        pass
     scratch = core.make_scratch_root("replay")
     try:
         import pydsdl
